@@ -104,6 +104,8 @@ def _stmt(op, r, depth):
         return b'CLOSE#%d' % op[1]
     if k == 'O':
         return b'OPEN "R",%d,"%s",%d' % (op[1], FILES[0], r)   # file name patched by caller
+    if k == 'X':
+        return b'CLEAR:FIELD...'
     raise CheckError('bad op %r' % (op,))
 
 
@@ -211,6 +213,8 @@ class Real(object):
         return b'OPEN "R",%d,"%s",%d' % (n, FILES[self.nums[n]], self.r)
 
     def reset(self):
+        self.lay = {n: 0 for n in self.nums}
+        self.isopen = {n: True for n in self.nums}
         self.must(b'CLOSE')
         for f in os.listdir(self.path):
             os.remove(os.path.join(self.path, f))
@@ -221,8 +225,21 @@ class Real(object):
 
     def apply(self, op, depth):
         if op[0] == 'O':
-            return self.run(self.open_stmt(op[1]))
-        return self.run(_stmt(op, self.r, depth))
+            res = self.run(self.open_stmt(op[1]))
+            if res is None:
+                self.isopen[op[1]] = True
+                self.lay[op[1]] = self.lay.get(op[1], 0)
+            return res
+        if op[0] == 'X':
+            # CLEAR leaves files open; the FIELD variables are gone and are attached again at once
+            st = b'CLEAR' + b''.join(b':' + _field_stmt(n, self.r, self.lay[n]) for n in sorted(self.nums) if self.isopen[n])
+            return self.run(st)
+        res = self.run(_stmt(op, self.r, depth))
+        if res is None and op[0] == 'F':
+            self.lay[op[1]] = op[2]
+        if res is None and op[0] == 'C':
+            self.isopen[op[1]] = False
+        return res
 
     def light_obs(self, model):
         """Non-perturbing observation: FIELD variables (-> buffers)."""
@@ -307,6 +324,13 @@ def _model_step(model, op, depth, real_bufs=None):
         if real_bufs is not None and real_bufs.get(op[1]) is not None:
             s.buf = bytearray(real_bufs[op[1]])
         return None, None
+    if k == 'X':
+        # what the record buffers hold after CLEAR is not specified: adopt it; files, positions and
+        # layouts are as before
+        for n, s in model.nums.items():
+            if s.open and real_bufs is not None and real_bufs.get(n) is not None:
+                s.buf = bytearray(real_bufs[n])
+        return None, None
     raise CheckError('bad op %r' % (op,))
 
 
@@ -329,6 +353,9 @@ def _candidates(cfg, model):
         ops.append(('S', n, 1, 'R'))
         ops.append(('F', n, 1 - s.lay))
         ops.append(('C', n))
+    if all(s.open for s in model.nums.values()):
+        # (with a closed number its former FIELD variables would simply vanish)
+        ops.append(('X',))
     return ops
 
 
@@ -341,7 +368,7 @@ def _build(real, model0, ops):
         if res is not None:
             raise CheckError('replay op %r failed with %r' % (op, res))
         bufs = None
-        if op[0] == 'O' or (op[0] == 'G' and not _invalid(op[2])):
+        if op[0] in 'OX' or (op[0] == 'G' and not _invalid(op[2])):
             lo = real.light_obs(model)
             bufs = {n: real.buffer(model, n, lo[n]) for n in model.nums}
         _model_step(model, op, d, bufs)
